@@ -36,7 +36,93 @@ def refusals(ctx, facts):
                       witness=dict(a_format=(1, 1, 1), b_format=(1, 2, 1)))
 
 
+def helper_clause(ctx, facts):
+    """C14.d: the software reference (FixedPoint.add / sub / mult of helper.py).  The value stored into the result's raw encoding is extracted
+    as a pure integer function of the operands' raw encodings and the format (sign-extension helper inlined), summarised symbolically and
+    compared with exact arithmetic over every format of the grid and every pair of encodings."""
+    import ast
+    from ..inline import inline_function
+    from ..ireval import Cfg, ev, EvalError, Nondet
+    from ..specs import FXP_FORMATS, sgn, m
+    from ..srcmap import norm
+    from ..summ import NotSummarisable, show
+    from .c12 import fn_summary
+    HELPER = 'py4hw/helper.py'
+    c = facts.cls('FixedPoint', HELPER, required=False)
+    if c is None:
+        ctx.error('C14.d', 'anchor class FixedPoint not found')
+        return
+    refs = dict(add=lambda a, b, f: (sgn(a, sum(f)) + sgn(b, sum(f))) & m(sum(f)),
+                sub=lambda a, b, f: (sgn(a, sum(f)) - sgn(b, sum(f))) & m(sum(f)),
+                mult=lambda a, b, f: ((sgn(a, sum(f)) * sgn(b, sum(f))) >> f[2]) & m(sum(f)))
+    for mn, ref in refs.items():
+        meth = c.methods.get(mn)
+        where = '%s:FixedPoint.%s' % (HELPER, mn)
+        if meth is None or len(meth.args.args) < 2:
+            ctx.error('C14.d', 'anchor FixedPoint.%s not found' % mn)
+            continue
+        other = meth.args.args[1].arg
+        res = None
+        body = []
+        for st in meth.body:
+            if isinstance(st, ast.Assign) and len(st.targets) == 1:
+                t = st.targets[0]
+                if isinstance(t, ast.Name) and isinstance(st.value, ast.Call) and norm(st.value.func) == 'FixedPoint':
+                    res = t.id
+                    continue
+                body.append(st)
+
+        class T(ast.NodeTransformer):
+            def visit_Attribute(self, n):
+                self.generic_visit(n)
+                if isinstance(n.value, ast.Name) and n.value.id in ('self', other) and n.attr in ('v', 'sw', 'iw', 'fw'):
+                    return ast.Name(id=(('a_v' if n.value.id == 'self' else 'b_v') if n.attr == 'v' else n.attr), ctx=n.ctx)
+                if isinstance(n.value, ast.Name) and n.value.id == res and n.attr == 'v':
+                    return ast.Name(id='res_v', ctx=n.ctx)
+                return n
+        try:
+            if res is None:
+                raise NotSummarisable('result object not found')
+            stmts = [T().visit(ast.parse(ast.unparse(x)).body[0]) for x in body]
+            fn = ast.FunctionDef(name='f', args=ast.arguments(posonlyargs=[], args=[ast.arg(arg=x) for x in ('a_v', 'b_v', 'sw', 'iw', 'fw')], kwonlyargs=[], kw_defaults=[], defaults=[]),
+                                 body=stmts + [ast.Return(value=ast.Name(id='res_v', ctx=ast.Load()))], decorator_list=[], lineno=1, col_offset=0)
+            ast.fix_missing_locations(fn)
+            fn = inline_function(facts, None, fn, rel=HELPER, keep=(), force={'signExtend', 'c2_to_signed', 'signed_to_c2', 'sign'})
+            ret = fn_summary(facts, fn, ['a_v', 'b_v', 'sw', 'iw', 'fw'])
+            if ret is None:
+                raise NotSummarisable('no value')
+        except (NotSummarisable, SyntaxError, KeyError) as e:
+            ctx.ok('C14.d', 'FixedPoint.%s' % mn, 'the stored encoding is not extractable as a pure function of the operand encodings (%s): not decided' % str(e)[:80], grade='refused')
+            continue
+        bad = None
+        n = 0
+        for f in FXP_FORMATS + [(1, 2, 3), (1, 3, 2)]:
+            w = sum(f)
+            for a in range(1 << w):
+                for b in range(1 << w):
+                    try:
+                        got = ev(ret, Cfg(), dict(a_v=a, b_v=b, sw=f[0], iw=f[1], fw=f[2]))
+                    except (EvalError, Nondet) as e:
+                        bad = dict(format=f, a=a, b=b, error=str(e))
+                        break
+                    n += 1
+                    if got != ref(a, b, f):
+                        bad = dict(format=f, a_encoding=a, b_encoding=b, a_value='%d/2^%d' % (sgn(a, w), f[2]), b_value='%d/2^%d' % (sgn(b, w), f[2]), helper=got, exact=ref(a, b, f))
+                        break
+                if bad:
+                    break
+            if bad:
+                break
+        if bad:
+            ctx.violation('C14.d', 'FixedPoint.%s' % mn, 'the software reference FixedPoint.%s does not return the exact result reduced to the format (products: truncated towards minus infinity like the hardware block)' % mn,
+                          where, witness=bad)
+        else:
+            ctx.ok('C14.d', 'FixedPoint.%s' % mn, '%d operand pairs over %d formats agree with exact arithmetic; summary: %s' % (n, len(FXP_FORMATS) + 2, show(ret)[:100]), grade='bounded')
+
+
 def run(ctx, sm, facts):
+    ctx.rule('C14.d', 'FixedPoint.add / sub / mult (software reference): extracted encoding function == exact arithmetic over the format grid and all operand pairs')
+    helper_clause(ctx, facts)
     ctx.rule('C14.a', 'elaborated fixed-point netlists == exact scaled-integer arithmetic over all operand pairs of every format of the grid')
     ctx.rule('C14.b', 'unsupported format combinations are refused')
     ctx.rule('C14.c', 'no undefined name / never-assigned attribute in arithmetic_fxp.py')
@@ -44,5 +130,5 @@ def run(ctx, sm, facts):
     refusals(ctx, facts)
     definite_failures(ctx, facts, sm, 'C14.c', [FXP])
     ctx.not_decided += ['formats wider than the grid (the blocks are width-generic compositions of Add / Sub / Mul / SignExtend / Range, themselves decided by C07 / C08 on their own grids)',
-                        'the FixedPoint helper class of helper.py (see C12)', 'FixedPointtoFP_SP (C13)']
+                        'FixedPointtoFP_SP (C13)']
     ctx.assumptions += ['elaborator and leaf summaries as in C07 / C08; reference = Python integer arithmetic on the sign-decoded encodings (hv/specs.py)']
